@@ -589,6 +589,36 @@ def check(index, ctx):
         ctx.require(not filtered and not skips, "R4", "_union: every member takes part in the result type", "the members are walked unfiltered",
                     f"`{norm_text(bad_)[:80]}` leaves some members out (e.g. the empty ones): their dictionary type no longer enters the least common ancestor, so the result can be "
                     "more specific than a part", un.loc(bad_) if (filtered or skips) else un.loc(), nontrivial=False)
+    # the conjunction hands back what its members produced — never what it was given: the input has the type of the previous stage,
+    # not the type common to the parts (for no part at all that is the bottom type, whatever came in)
+    conj = index.find_class(f"{T}.base.Conjunction")
+    if conj is not None:
+        from . import _pipe as _pp
+
+        cm = conj.lookup(_pp.compute_method_name(index))
+        if cm is not None and cm[0] is conj:
+            fn_ = cm[1]
+            par_ = [a_.arg for a_ in fn_.node.args.args if a_.arg not in ("self", "cls")]
+            single = {}
+            for a_ in ast.walk(fn_.node):
+                if isinstance(a_, ast.Assign) and len(a_.targets) == 1 and isinstance(a_.targets[0], ast.Name):
+                    single.setdefault(a_.targets[0].id, []).append(a_.value)
+
+            def is_input(e_, depth=0):
+                if isinstance(e_, ast.Name):
+                    if e_.id in par_ and e_.id not in single:
+                        return True
+                    if depth < 4 and len(single.get(e_.id, ())) == 1:
+                        return is_input(single[e_.id][0], depth + 1)
+                if isinstance(e_, ast.IfExp):
+                    return is_input(e_.body, depth + 1) or is_input(e_.orelse, depth + 1)
+                return False
+
+            rets_ = [r_ for r_ in ast.walk(fn_.node) if isinstance(r_, ast.Return) and r_.value is not None]
+            bad_r = [r_ for r_ in rets_ if is_input(r_.value)]
+            ctx.require(not bad_r, "R4", "Conjunction: the result is built from what the members return", f"{len(rets_)} return statement(s), none hands the input back",
+                        f"`{norm_text(bad_r[0])[:60]}` returns the dictionary the conjunction was applied to: its type is that of the previous stage (e.g. Gradients), not the most specific type "
+                        "common to the parts — for a conjunction without members that is the bottom type EmptyTensorDict" if bad_r else "", fn_.loc(bad_r[0]) if bad_r else fn_.loc(), nontrivial=False)
     # ------------------------------------------------------------------------------------------------ R5
     for mname in MUTATORS:
         target = td.aliases.get(mname)
